@@ -211,7 +211,9 @@ def apply_config(s, spec, prob, which=None):
             if spec.get("evalmon", True):
                 s.SetEvaluationMonitor(Monitor())
             if spec.get("stepmon"):
-                s.SetGenerationMonitor(Monitor())
+                # True: a plain Monitor; a number: a Monitor with that cost multiplier k (transparent to the solver)
+                km = spec["stepmon"]
+                s.SetGenerationMonitor(Monitor() if km is True else Monitor(k=km))
 
 
 def snapshot(s, rec, op, ret):
@@ -231,7 +233,7 @@ def snapshot(s, rec, op, ret):
         "evaluations": int(s.evaluations), "generations": int(s.generations),
         "n_cost_calls": len(rec.cost_calls), "n_cb": len(rec.cb_calls),
         "n_evalmon": nem, "n_stepmon": len(sm),
-        "stepmon_x": [vec(x) for x in sm._x], "stepmon_y": [float(np.asarray(y, dtype=float).ravel()[0]) for y in sm._y],
+        "stepmon_x": [vec(x) for x in sm._x], "stepmon_y": [float(np.asarray(y, dtype=float).ravel()[0]) for y in sm.y],
         "energy_history": [float(np.asarray(y, dtype=float).ravel()[0]) for y in s.energy_history],
         "live": bool(s._live), "maxiter": s._maxiter, "maxfun": s._maxfun, "earlyexit": bool(s._EARLYEXIT),
         "n_trials": len(rec.trials), "n_ls": len(rec.linesearch), "n_con": len(rec.con_calls), "n_pen": len(rec.pen_calls),
